@@ -53,6 +53,20 @@ def obligations(ctx):
         for api in (1, 2, 3):
             for (rsz, asz) in ((2, 0), (1, 0), (3, 1)):
                 obs.append(apigen.api_ob(tt, api, nn, 1, 1, rsz, asz, tag="zero-rows/"))
+    obs += two_module_obs(ctx)
+    return obs
+
+
+def two_module_obs(ctx, tag="modules/"):
+    """two NTT120 modules of different ring dimensions alive together, filled and released by the real fill_module_precomp / delete_module_info"""
+    from vf.props import apigen
+    obs = []
+    for (na, nb) in ((8, 4), (4, 8), (2, 1)):
+        obs.append(core.Ob("%stwo-alive/N=%d+N=%d" % (tag, na, nb), "leak_ntt.c", "h_two_modules", {"NN": na, "NB": nb, "AVX": 1}, apigen.LIBS, unwind=140,
+                           flags=["--memory-leak-check"], family="NTT120 module lifetime", timeout=1500,
+                           desc="two NTT120 modules with different N filled by the real fill_module_precomp and released by the real delete_module_info (table builders replaced by "
+                                "light stand-ins with the same object structure; the real builder/delete pairs are C11's): building and deleting the second module leaves the first "
+                                "module's tables valid heap objects with unchanged contents; deleting both frees nothing twice and leaves nothing live"))
     return obs
 
 
